@@ -69,7 +69,14 @@ OutItems(d) == Numbered(d)
 OutRefIds(d) == {<<IndexOf(d, Target(d, Rendered(d)[j])), RefNo(d, Rendered(d)[j])>> : j \in 1..Len(Rendered(d))}
 OutBacklinks(d) == UNION {{<<k, n>> : n \in 0..(RefCount(d, Numbered(d)[k]) - 1)} : k \in 1..Len(Numbered(d))}
 
-Init == doc \in Docs /\ done = FALSE
+\* Order documents (configuration constant MaxItems = 0): every label is referenced once and defined once;
+\* all orders of the references x all orders of the definitions x which group comes first.  The items
+\* of the list must come out in the order of the FIRST REFERENCES whatever the order of the definitions.
+Seqs(S) == {f \in [1..Cardinality(S) -> S] : \A i, j \in 1..Cardinality(S) : i # j => f[i] # f[j]}
+PermDocs == {IF first THEN [i \in 1..Len(p) |-> [k |-> "para", l |-> p[i], place |-> "plain"]] \o [i \in 1..Len(q) |-> [k |-> "def", l |-> q[i], ref |-> "none"]]
+                      ELSE [i \in 1..Len(q) |-> [k |-> "def", l |-> q[i], ref |-> "none"]] \o [i \in 1..Len(p) |-> [k |-> "para", l |-> p[i], place |-> "plain"]]
+             : p \in Seqs(Labels), q \in Seqs(Labels), first \in BOOLEAN}
+Init == doc \in (IF MaxItems = 0 THEN PermDocs ELSE Docs) /\ done = FALSE
 Finish == /\ ~done /\ done' = TRUE /\ UNCHANGED doc
           /\ (Emit => PrintT(ToJson([items |-> doc, nitems |-> Len(OutItems(doc)), nrefs |-> Len(Rendered(doc)),
                                      dangling |-> Cardinality(OutBacklinks(doc) \ OutRefIds(doc))])))
